@@ -440,9 +440,12 @@ fn odd_repositories() -> Vec<(&'static str, std::path::PathBuf)> {
     for (k, name) in ["non-ascii-refs-0", "non-ascii-refs-1", "non-ascii-refs-2", "non-ascii-refs-3"].into_iter().enumerate() {
         let d = fresh(name);
         let pad = "a".repeat(k);
-        git(&d, &["checkout", "-q", "-b", &format!("{pad}機能/とても長いブランチ名-{}-😀", "ブランチ".repeat(20))]);
+        // (a path component of a ref is limited to 255 bytes: several long components)
+        let seg = "ブランチ".repeat(15);
+        git(&d, &["checkout", "-q", "-b", &format!("{pad}機能/とても長いブランチ名/{seg}/{seg}-😀/{seg}")]);
         for t in ["リリース候補", "日本語のタグ", "v2.0.0-ベータ", "émoji-😀😀😀", "ταγ", "метка-выпуска"] {
             git(&d, &["tag", &format!("{pad}{t}")]);
+            git(&d, &["tag", &format!("{pad}{t}-{}", "とても長いタグ名".repeat(3))]);
         }
         git(&d, &["tag", "v1.3.0"]);
         git(&d, &["tag", "-a", "v1.3.1", "-m", "annotated: リリース 😀"]);
